@@ -840,9 +840,76 @@ theorem TreeInv.newNode {s : PSt} (h : TreeInv s) (id : Nat) (st : NState) (hid 
   · exact h2.listsNoRoot
   · exact h2.listsInRange
 
+theorem anc_no_kids {s : PSt} {a p : Nat} (hk : ∀ c, par s c ≠ some a) (h : Anc s a p) : a = p := by
+  induction h with
+  | refl => rfl
+  | step hq _ ih => exact absurd (ih ▸ hq) (hk _)
+
+/-- a fresh node linked below ANY stream of the map (the root, or the associated stream of a pushed stream) and entered
+into the map -/
+theorem TreeInv.newNodeUnder {s : PSt} (h : TreeInv s) (id : Nat) (st : NState) (hid : id ≠ 0) {pid q : Nat}
+    (hmq : (pid, q) ∈ s.nodes) :
+    let a := Fp.Prio.alloc s { id := id, state := st }
+    let s2 := setParent a.1 a.2 (some q)
+    ∀ (mx : Nat), TreeInv { s2 with nodes := s2.nodes ++ [(id, a.2)], maxID := mx } := by
+  intro a s2 mx
+  obtain ⟨ha, hp, hlen⟩ := h.allocNode { id := id, state := st } rfl hid
+  have hp0 : a.2 ≠ 0 := by
+    show (Fp.Prio.alloc s { id := id, state := st }).2 ≠ 0
+    rw [hp]; exact Nat.ne_of_gt h.heapPos
+  have hpr : a.2 < a.1.heap.length := by
+    show (Fp.Prio.alloc s { id := id, state := st }).2 < (Fp.Prio.alloc s { id := id, state := st }).1.heap.length
+    rw [hp, hlen]; omega
+  have hqr : q < s.heap.length := by
+    rcases h.mapped pid q hmq with ⟨h1, _⟩ | ⟨_, _, h3⟩
+    · rw [h1]; exact h.heapPos
+    · cases hq : par s q with
+      | none => rw [hq] at h3; cases h3
+      | some g => exact par_in_range hq
+  have hqR : Rooted a.1 q := ha.mapped_rooted (id := pid) (p := q) hmq
+  have hdet : par a.1 a.2 = none := by
+    show par (Fp.Prio.alloc s { id := id, state := st }).1 (Fp.Prio.alloc s { id := id, state := st }).2 = none
+    rw [hp, par_alloc s _ rfl]
+    simp [par, node, List.getD_eq_getElem?_getD]
+  have hav : ¬ Anc a.1 a.2 q := by
+    intro hh
+    have := anc_no_kids (ha.detached_no_kids hp0 hdet) hh
+    have h2 : (Fp.Prio.alloc s { id := id, state := st }).2 = q := this
+    rw [hp] at h2; omega
+  have h2 : TreeInv s2 := ha.setParent_some hp0 hpr hqR hav
+  have hpar2 : par s2 a.2 = some q := par_setParent_self a.1 a.2 _ hpr
+  constructor
+  · exact h2.heapPos
+  · exact h2.rootPar
+  · intro c q' hc
+    refine (rooted_heap_congr ?_ q').mpr (h2.parRooted c q' hc)
+    rfl
+  · intro id' p hm
+    simp only [List.mem_append, List.mem_singleton, Prod.mk.injEq] at hm
+    rcases hm with hm | ⟨rfl, rfl⟩
+    · exact h2.mapped id' p hm
+    · right; exact ⟨hp0, hid, by show (par s2 a.2).isSome = true; rw [hpar2]; rfl⟩
+  · intro id' p hm
+    simp only [List.mem_append, List.mem_singleton, Prod.mk.injEq] at hm
+    rcases hm with hm | ⟨rfl, rfl⟩
+    · exact h2.mappedId id' p hm
+    · show (node s2 a.2).id = id'
+      rw [id_setParent]
+      show (node (Fp.Prio.alloc s { id := id', state := st }).1 (Fp.Prio.alloc s { id := id', state := st }).2).id = id'
+      rw [hp, node_alloc_new]
+  · exact h2.idNonzero
+  · have := h2.rootMapped
+    unfold lookup at this ⊢
+    simp only [List.find?_append]
+    cases hf : List.find? (fun x => x.1 == 0) s2.nodes with
+    | none => rw [hf] at this; cases this
+    | some e => rw [hf] at this; simpa using this
+  · exact h2.listsNoRoot
+  · exact h2.listsInRange
+
 theorem lookup_zero_ne_none {s : PSt} (h : TreeInv s) : lookup s 0 ≠ none := by rw [h.rootMapped]; simp
 
-theorem TreeInv.openStream {s : PSt} (h : TreeInv s) (id : Nat) : TreeInv (openStream s id).1 := by
+theorem TreeInv.openStream {s : PSt} (h : TreeInv s) (id : Nat) (pusher : Nat := 0) : TreeInv (openStream s id pusher).1 := by
   unfold Fp.Prio.openStream
   cases hl : lookup s id with
   | some p =>
@@ -860,7 +927,9 @@ theorem TreeInv.openStream {s : PSt} (h : TreeInv s) (id : Nat) : TreeInv (openS
   | none =>
     have hid : id ≠ 0 := fun e => lookup_zero_ne_none h (e ▸ hl)
     simp only
-    exact (h.newNode id NState.open_ hid _).1
+    cases hq : lookup s pusher with
+    | some q => exact h.newNodeUnder id NState.open_ hid (lookup_mem hq) _
+    | none => exact h.newNodeUnder id NState.open_ hid (lookup_mem h.rootMapped) _
 
 theorem TreeInv.push {s : PSt} (h : TreeInv s) (r : Sched.Req) : TreeInv (push s r).1 := by
   unfold Fp.Prio.push
@@ -1527,7 +1596,7 @@ theorem TreeInv.adjustStream {s : PSt} (h : TreeInv s) (id dep weight : Nat) (ex
 /-- every operation of the scheduler interface keeps the dependency structure a tree rooted at stream 0 -/
 theorem TreeInv.step {s : PSt} (h : TreeInv s) (less : PNode → PNode → Bool) (op : POp) : TreeInv (step less s op).1 := by
   cases op with
-  | open_ id => exact h.openStream id
+  | open_ id pusher => exact h.openStream id pusher
   | close id => exact h.closeStream id
   | adjust id dep w e => exact h.adjustStream id dep w e
   | push r => exact h.push r
